@@ -30,10 +30,10 @@ func TestC11(t *testing.T) {
 	t.Run("codec", func(t *testing.T) {
 		restore := scaleRapidChecks(4)
 		defer restore()
-		rapid.Check(t, func(t *rapid.T) { c11Codec(t, st) })
+		checkCases(t, st, func(t *rapid.T) { c11Codec(t, st) })
 	})
 	t.Run("sequences", func(t *testing.T) {
-		rapid.Check(t, func(t *rapid.T) { c11Sequence(t, st) })
+		checkCases(t, st, func(t *rapid.T) { c11Sequence(t, st) })
 	})
 }
 
